@@ -2,6 +2,7 @@ package main
 
 import (
 	"fmt"
+	"hash/fnv"
 	"regexp"
 	"sort"
 	"strconv"
@@ -169,6 +170,31 @@ func mapperCase(c string) (res string) {
 				}
 				oracle = append(oracle, fmt.Sprintf("B:%d:%s", oi, bt))
 			}
+		case "D":
+			// digest of the answers for every name x metric type
+			h := fnv.New64a()
+			for _, nh := range strings.Split(f[1], ",") {
+				name := unhex(nh)
+				for _, ty := range []string{"counter", "gauge", "observer"} {
+					for _, r := range regexes {
+						if r.re == nil {
+							continue
+						}
+						key := r.src + "\x00" + name
+						if !seenM[key] {
+							seenM[key] = true
+							oracle = append(oracle, "M:"+hx(r.src)+":"+hx(name)+":"+groupsString(r.re, name))
+						}
+					}
+					mp, labels, present := m.GetMapping(name, mapper.MetricType(ty))
+					if !present {
+						h.Write([]byte("Q -;"))
+					} else {
+						h.Write([]byte(mappingString(mp, labels) + ";"))
+					}
+				}
+			}
+			results = append(results, fmt.Sprintf("D %016x", h.Sum64()))
 		case "Q":
 			name := unhex(f[2])
 			for _, r := range regexes {
